@@ -115,7 +115,7 @@ def _series(nsl, ensemble, ncfg=1):
             pot = M.make_potential(ncfg, nsl, spec, ensemble=ensemble)
             planes = pot.exit_planes
             out = MS.multislice_and_detect(M.make_waves(), pot, [M.TagDetector(0)])
-            rp = R_S(nsl, spec)
+            rp = R_S(nsl, spec, ncfg if ensemble else 0)
             a = out[0].array
             lead = ((ncfg,) if ensemble else ())
             want_shape = lead + ((len(planes),) if len(planes) > 1 else ()) + (1, 1)
@@ -134,30 +134,36 @@ def _series(nsl, ensemble, ncfg=1):
     return fn
 
 
-def R_S(nsl, spec):
+def R_S(nsl, spec, ncfg=0):
     return make("""
     import abtem
+    from abtem.core.axes import FrozenPhononsAxis
     from abtem.potentials.iam import PotentialArray
     rng = np.random.default_rng(1)
-    arr = (rng.random((NSL, 8, 8)) * 30).astype(np.float32)
+    arrs = (rng.random((max(NCFG, 1), NSL, 8, 8)) * 30).astype(np.float32)
     t = tuple(0.5 + 0.25 * i for i in range(NSL))
-    pot = PotentialArray(arr, slice_thickness=t, sampling=0.2, exit_planes=SPEC)
+    if NCFG:
+        pot = PotentialArray(arrs, slice_thickness=t, sampling=0.2, exit_planes=SPEC, ensemble_axes_metadata=[FrozenPhononsAxis()])
+    else:
+        pot = PotentialArray(arrs[0], slice_thickness=t, sampling=0.2, exit_planes=SPEC)
     planes = pot.exit_planes
     w = abtem.PlaneWave(energy=80e3)
     res = w.multislice(pot, lazy=False)
-    full = res.array.reshape((len(planes), 8, 8))
-    for j, p in enumerate(planes):
-        if p == -1:
-            ref = w.build(lazy=False) if False else abtem.PlaneWave(energy=80e3, gpts=(8, 8), sampling=0.2).build(lazy=False).array
-        else:
-            ref = w.multislice(PotentialArray(arr[:p + 1], slice_thickness=t[:p + 1], sampling=0.2), lazy=False).array
-        err = np.abs(full[j] - ref).max()
-        if err > 1e-5: bad, why = True, f"exit plane {p}: differs from the truncated simulation by {err}"
+    full = np.asarray(res.array).reshape((max(NCFG, 1), len(planes), 8, 8))
+    for k in range(max(NCFG, 1)):
+        arr = arrs[k]
+        for j, p in enumerate(planes):
+            if p == -1:
+                ref = abtem.PlaneWave(energy=80e3, gpts=(8, 8), sampling=0.2).build(lazy=False).array
+            else:
+                ref = w.multislice(PotentialArray(arr[:p + 1], slice_thickness=t[:p + 1], sampling=0.2), lazy=False).array
+            err = np.abs(full[k, j] - ref).max()
+            if err > 1e-5: bad, why = True, f"configuration {k}, exit plane {p}: differs from the truncated simulation by {err}"
     if len(planes) > 1:
         th = [a for a in res.ensemble_axes_metadata if type(a).__name__ == 'ThicknessAxis'][0].values
         want = [sum(t[:p + 1]) for p in planes]
         if any(abs(a - b) > 1e-6 for a, b in zip(th, want)): bad, why = True, f"thickness axis {th} expected {want}"
-""", NSL=nsl, SPEC=spec)
+""", NSL=nsl, SPEC=spec, NCFG=ncfg)
 
 
 def cases(tier):
